@@ -1,5 +1,5 @@
 // govc:pkg rsql
-// govc:bound 400 statements (3000 with GOVC_BOUND=thorough): 1..3 JOIN clauses (INNER JOIN / JOIN / LEFT JOIN / LEFT OUTER JOIN in random letter case, alias written with AS, bare or not at all, 1..2 ON pairs in either operand order) and MATCH_RECOGNIZE clauses (PARTITION BY, ORDER BY with ASC / DESC / no direction, 1..3 measures, ONE ROW / ALL ROWS PER MATCH, the four AFTER MATCH SKIP forms, patterns over quantifiers ? * + {n} {n,} {n,m} each greedy or reluctant, WITHIN, DEFINE conditions using keyword-like column names inside calls)
+// govc:bound 400 statements (3000 with GOVC_BOUND=thorough): 1..3 JOIN clauses (INNER JOIN / JOIN / LEFT JOIN / LEFT OUTER JOIN in random letter case, alias written with AS, bare or not at all, 1..2 ON pairs in either operand order) and MATCH_RECOGNIZE clauses (PARTITION BY, ORDER BY with ASC / DESC / no direction, 1..3 measures, ONE ROW / ALL ROWS PER MATCH, the four AFTER MATCH SKIP forms, patterns over quantifiers ? * + {n} {n,} {n,m} each greedy or reluctant, SUBSET in one clause or two, WITHIN, DEFINE conditions using keyword-like column names inside calls)
 // govc:also C15 C16
 // Bounded stand-in (NOT a proof) for "faithful to the clauses written" where the contracts only state safety: what the parser
 // hands on for JOIN and MATCH_RECOGNIZE is compared, field by field, with what the generator wrote.
@@ -244,6 +244,19 @@ func TestGovcBounded_match_recognize_clauses(t *testing.T) {
 			return "greedy"
 		}
 		wantPattern := fmt.Sprintf("A{%d,%d,%s} B{%d,%d,%s}", qa.min, qa.max, g(ra), qb.min, qb.max, g(rb))
+		// SUBSET: none, one, or two subsets written either in one comma-separated clause or as two SUBSET clauses
+		wantSubsets := "[]"
+		switch rng.Intn(4) {
+		case 1:
+			b.WriteString(" " + govcCase(rng, "SUBSET") + " S1 = (A, B)")
+			wantSubsets = "[S1=A+B]"
+		case 2:
+			b.WriteString(" " + govcCase(rng, "SUBSET") + " S1 = (A, B), S2 = (B)")
+			wantSubsets = "[S1=A+B S2=B]"
+		case 3:
+			b.WriteString(" " + govcCase(rng, "SUBSET") + " S1 = (A, B) " + govcCase(rng, "SUBSET") + " S2 = (B)")
+			wantSubsets = "[S1=A+B S2=B]"
+		}
 		b.WriteString(" " + govcCase(rng, "WITHIN") + " '1h'")
 		// DEFINE conditions; the second one uses keyword-like column names inside a call
 		defs := []string{"v > 10", "abs(after - v) > 1", "coalesce(pattern, 0) < v", "v < 100"}
@@ -288,8 +301,12 @@ func TestGovcBounded_match_recognize_clauses(t *testing.T) {
 				gotPattern = govcPatternString(seq)
 			}
 		}
-		written := fmt.Sprintf("partition=%v order=[%s] measures=%v rows=%d skip=%d/%s pattern=%s defines=[A:%s B:%s]", wantPart, wantOrder, wantMeasures, wantRows, wantSkip, wantSkipSym, wantPattern, norm(da), norm(db))
-		parsed := fmt.Sprintf("partition=%v order=%v measures=%v rows=%d skip=%d/%s pattern=%s defines=%v", append([]string{}, mr.PartitionBy...), gotOrder, gotMeasures, mr.RowsPerMatch, mr.Skip, mr.SkipSymbol, gotPattern, gotDefs)
+		gotSubsets := []string{}
+		for _, ss := range mr.Subsets {
+			gotSubsets = append(gotSubsets, ss.Name+"="+strings.Join(ss.Symbols, "+"))
+		}
+		written := fmt.Sprintf("partition=%v order=[%s] measures=%v rows=%d skip=%d/%s pattern=%s defines=[A:%s B:%s] subsets=%s", wantPart, wantOrder, wantMeasures, wantRows, wantSkip, wantSkipSym, wantPattern, norm(da), norm(db), wantSubsets)
+		parsed := fmt.Sprintf("partition=%v order=%v measures=%v rows=%d skip=%d/%s pattern=%s defines=%v subsets=%v", append([]string{}, mr.PartitionBy...), gotOrder, gotMeasures, mr.RowsPerMatch, mr.Skip, mr.SkipSymbol, gotPattern, gotDefs, gotSubsets)
 		if written != parsed {
 			fails++
 			if fails <= 8 {
